@@ -271,6 +271,9 @@ func H_datarefsLate(depth, budget, late int) { c07Run(depth, budget, true, true,
 
 func c07Run(depth, budget int, declA, declB bool, late int) {
 	g := &c07Gen{budget: budget, rOrder: -1}
+	if late != 0 {
+		g.rOrder = 0 // (the order of the callee's soydoc lines is varied by H_datarefs)
+	}
 	prog := g.list(depth, 3)
 	doc := "/**"
 	params := map[string]bool{"l": true, "m": true}
